@@ -272,6 +272,12 @@ def spec_call(ex, st, e, cx, k):
     if nm == 'cfg_key_at':
         c_, i_ = ex.pure(st, e.args[0], cx), ex.pure(st, e.args[1], cx)
         return k(st, SV(STR, ex.uf('cfg_key_at', z3.IntSort(), z3.IntSort(), z3.StringSort())(c_.z, i_.z)))
+    if nm == 'cfg_len':
+        v = ex.pure(st, e.args[0], cx)
+        return k(st, SV(INT, ex.uf('cfg_len', z3.IntSort(), z3.IntSort())(v.z)))
+    if nm == 'cfg_item':
+        v, i_ = ex.pure(st, e.args[0], cx), ex.pure(st, e.args[1], cx)
+        return k(st, SV(T.CFG, ex.uf('cfg_item', z3.IntSort(), z3.IntSort(), z3.IntSort())(v.z, ex.coerce(i_, INT).z)))
     if nm in ('cfg_int', 'cfg_str', 'cfg_bool'):
         v = ex.pure(st, e.args[0], cx)
         return k(st, ex.coerce(v, {'cfg_int': INT, 'cfg_str': STR, 'cfg_bool': BOOL}[nm]))
